@@ -140,7 +140,7 @@ example : matchesFinding 10 hist10 = true := by decide
 /-! ### what is proved: refinement on the fragment -/
 
 /-- `C10_partial`: on every history of the fragment (`fragRun`: all ops except rename / remove_file /
-    remove_dir / remove_dir_all / create_dir_all / read_dir, no shrinking set_len or truncating open of
+    remove_dir / remove_dir_all / create_dir_all, no shrinking set_len or truncating open of
     a non-empty file, no file creation over a directory — conditions judged against the POSIX tree)
     the implementation model returns exactly the observations of the POSIX tree.  Proof: simulation
     relation `R` (`abs`: replay of the pending log = incremental content `inc`), `sim_step` (each op
@@ -155,7 +155,8 @@ theorem C10_partial (h : List Op) (hf : fragRun Live.init h = true) :
 def fragExample : List Op :=
   [.mkdir d, .open 0 (d ++ a) { r := true, w := true, c := true }, .writeAt 0 2 [65, 66],
    .syncAll 0, .writeAt 0 3 [67], .setLen 0 6, .syncDir d, .syncDir [], .readAt 0 0 8,
-   .writeFile b [1, 2, 3], .seek 0 2 (-1), .read 0 4, .stat (d ++ a), .readFile (d ++ a)]
+   .writeFile b [1, 2, 3], .seek 0 2 (-1), .read 0 4, .stat (d ++ a), .readDir [], .readDir d,
+   .dump [a, b, d, d ++ a], .readFile (d ++ a)]
 
 example : fragRun Live.init fragExample = true := by decide
 example : (run {} St.init (quiet fragExample)).getLast? = some (.data [0, 0, 65, 67, 0, 0]) := by decide
